@@ -124,7 +124,10 @@ def _guards(nf, fn, cfg, nid, qual):
             continue  # loops: `for _ in range(gradient_steps)` and the main loop carry no cadence
         if bn.kind == "test" and isinstance(bn.ast, ast.If):
             for txt, truth in cfg._lits(bn.ast.test, lab, b):
-                # literals introduced by expanding a name (`done` -> operands) are kept once
+                # a name that was expanded into its defining expression (`done = terminated or truncated; if done:`) is
+                # represented by the expansion alone: the alias adds no condition
+                if txt.isidentifier() and cfg._expand_name(ast.Name(id=txt, ctx=ast.Load()), b) is not None:
+                    continue
                 out.append(_lit_canon(nf, sc, cfg, txt, truth, b))
     # de-duplicate, drop logger / None tests
     res = []
@@ -403,6 +406,7 @@ MUTANTS = [
     {"id": "c06-ddqn-extra-helper", "file": _A + "ddqn.py", "rule": "R4", "find": "            if step % target_update_frequency == 0:\n                hard_target_net_update(q_net, q_target_net)", "replace": "            if step % target_update_frequency == 0:\n                hard_target_net_update(q_net, q_target_net)\n        if terminated:\n            hard_target_net_update(q_net, q_target_net)"},
 ]
 BENIGN = [
+    {"id": "c06-b-td7-done-alias", "file": _A + "td7.py", "edits": [("        next_obs, reward, termination, truncated, info = env.step(action)\n", "        next_obs, reward, termination, truncated, info = env.step(action)\n        done = termination or truncated\n"), ("            if (termination or truncated) and use_checkpoints:", "            if done and use_checkpoints:")]},
     {"id": "c06-b-td3-not-mod", "file": _A + "td3.py", "find": "                if step % policy_delay == 0:", "replace": "                if not step % policy_delay:"},
     {"id": "c06-b-td3-flipped-eq", "file": _A + "td3.py", "find": "                if step % policy_delay == 0:", "replace": "                if 0 == step % policy_delay:"},
     {"id": "c06-b-soft-kwargs", "file": _T, "find": "optax.incremental_update(params, target_params, tau)", "replace": "optax.incremental_update(new_tensors=params, old_tensors=target_params, step_size=tau)"},
